@@ -25,7 +25,19 @@ fn answer_text(qt: &Tm, ans: &[Tm]) -> String {
     parts.join(", ")
 }
 
+/// Every history is run twice: with each of the two query constructors of the crate
+/// (`make_query` on terms, `parse_query` on the query's source text), each followed by `make_base_node`.
 pub fn replay(case: &Value) -> Vec<Obs> {
+    let mut obs = replay_with(case, "make_query");
+    let second = replay_with(case, "parse_query");
+    // report each property once: ok only if both runs are ok
+    for o in second {
+        if !o.ok { obs.retain(|x| !(x.prop == o.prop && x.ok)); if !obs.iter().any(|x| x.prop == o.prop && !x.ok) { obs.push(o); } }
+    }
+    obs
+}
+
+fn replay_with(case: &Value, ctor: &str) -> Vec<Obs> {
     let kb = build_kb(&case["prog"]);
     let plan = case["plan"].as_array().unwrap();
     let reports = case["reports"].as_array().unwrap();
@@ -40,12 +52,19 @@ pub fn replay(case: &Value) -> Vec<Obs> {
     for (ei, ep) in plan.iter().enumerate() {
         let qt = tm_from_json(&ep["query"]);
         let qterms: Vec<Unifiable> = match build(&qt) { Unifiable::SComplex(v) => v, _ => vec![] };
-        // ONLY the query constructors: make_query + make_base_node
-        let query = make_query(qterms);
+        // ONLY the query constructors: make_query / parse_query, then make_base_node
+        let qtext = show(&qt).replace("_0", "");
+        let query = if ctor == "parse_query" {
+            match catch_unwind(AssertUnwindSafe(|| parse_query(&qtext))) {
+                Ok(Ok(g)) => g,
+                Ok(Err(e)) => return vec![Obs::bad("C22", "history", format!("parse_query({:?}) was rejected: {}", qtext, e))],
+                Err(_) => return vec![Obs::bad("C22", "history", format!("parse_query({:?}) panicked", qtext))],
+            }
+        } else { make_query(qterms) };
         let q = Rc::new(query.clone());
         let args: Vec<Tm> = match &*q { Goal::ComplexGoal(Unifiable::SComplex(v)) => v[1..].iter().map(project).collect(), _ => vec![] };
         let sn = make_base_node(Rc::clone(&q), &kb);
-        history.push_str(&format!(" | ?- {}:", show(&qt).replace("_0", "")));
+        history.push_str(&format!(" | {} ?- {}:", ctor, qtext));
         for call in ep["calls"].as_array().unwrap() {
             let mode = call["mode"].as_str().unwrap();
             let fire = call["fire"].as_i64().unwrap_or(0);
